@@ -2,6 +2,7 @@ package interp
 
 import (
 	"fmt"
+	"os"
 	"sort"
 	"sync"
 	"time"
@@ -476,6 +477,7 @@ type ExploreOpts struct {
 	MaxViolations int
 	Debug     bool
 	Deadline  time.Time
+	Progress  bool
 }
 
 // Explore runs harness fn over all feasible paths.
@@ -502,6 +504,24 @@ func Explore(prog *ssa.Program, fn *ssa.Function, opts ExploreOpts) (*Stats, err
 	t0 := time.Now()
 
 	var wg sync.WaitGroup
+	progDone := make(chan struct{})
+	if opts.Progress {
+		go func() {
+			tk := time.NewTicker(10 * time.Second)
+			defer tk.Stop()
+			for {
+				select {
+				case <-progDone:
+					return
+				case <-tk.C:
+					mu.Lock()
+					fmt.Fprintf(os.Stderr, "  [%s] %.0fs paths=%d queue=%d active=%d status=%v viol=%d\n", fn.Name(), time.Since(t0).Seconds(), st.Paths, len(work), active, st.ByStatus, len(st.Violations))
+					mu.Unlock()
+				}
+			}
+		}()
+	}
+	defer close(progDone)
 	for w := 0; w < opts.Workers; w++ {
 		wg.Add(1)
 		go func(w int) {
@@ -546,6 +566,11 @@ func Explore(prog *ssa.Program, fn *ssa.Function, opts ExploreOpts) (*Stats, err
 					}
 					sv, err := sym.NewSolver(opts.Solver, opts.TimeoutMs)
 					if err == nil {
+						if lp := os.Getenv("GOSYM_SMTLOG"); lp != "" && w == 0 {
+							if f, e := os.Create(lp); e == nil {
+								sv.Log = f
+							}
+						}
 						it.Solver = sv
 						if opts.Setup != nil {
 							opts.Setup(it)
